@@ -5,7 +5,8 @@ CFG = {
                   "success response with an integrity key other than the remote password or from an unknown source, error "
                   "responses, unknown classes and non-Binding methods leave the state EQUAL and emit nothing (handleInbound = (a, [])); "
                   "an indication only sets lastRecv of the known remote at the source; a verified success response without an "
-                  "unexpired pending entry of the same id, network type and destination changes only `pending` (shrinks) and the "
+                  "unexpired pending entry of the same id, network type, destination and source (the local address the response arrives "
+                  "on; the source conjunct is the fix of F17) changes only `pending` (shrinks) and the "
                   "remote's lastRecv. Lifted to `step` under the quiescence invariant (proved inductive over every event), and over "
                   "histories after Restart (no pending id of the ended generation ever reappears; old-password/old-ufrag requests "
                   "are dropped). The two pure gates canHandleInbound / responseSymmetric are REGENERATED from the Go source on every "
@@ -33,6 +34,7 @@ CFG = {
     "assumptions": ["step-level no-op statements assume the quiescence invariant Q (started -> not closed -> forcePending = false), "
                     "proved preserved by every event from every state (C02_quiescent); without it a forced tick requested earlier runs "
                     "at the end of the event (model scheduling of the timer goroutine, witness C02_step_noop_needs_quiescent_witness)",
-                    "message fields read by the translated predicates (msg.Type.Method, msg.Type.Class; the two comparisons of "
-                    "responseSymmetric) are passed as parameters (harness/gotolean/spec/T_Agent.json)"],
+                    "message fields read by the translated predicates (msg.Type.Method, msg.Type.Class; the three comparisons of "
+                    "responseSymmetric and the validity of the recorded source, which sendBindingRequest always sets) are passed "
+                    "as parameters (harness/gotolean/spec/T_Agent.json)"],
 }
